@@ -1,8 +1,21 @@
 """C11 - assembled EtherCAT frames are well-formed with exact datagram positions.
 
-Exhaustive enumeration of datagram sequences (bounded alphabet / depth) fed to
-the real Packet / SterilePacket; every assembled frame is parsed by the
-independent parser (mc.ecparse) and compared with an independent serialiser.
+Exhaustive enumeration of operation sequences (bounded alphabet / depth) on one
+real Packet / SterilePacket object: append / append_writer calls, interleaved
+with observations (size read, assemble(), sterile()) after chosen prefixes.
+Every assembled frame is parsed by the independent parser (mc.ecparse) and
+compared with an independent serialisation of the datagrams accepted SO FAR.
+
+Families (see run()):
+  d1    every single-datagram frame: 15 commands x all lengths x a rotating
+        window over the address alphabet x presets x indices x 3 ways to add
+  addr  the full address alphabet (every position x every offset, logical
+        addresses) x 15 commands, alone and in pairs
+  seq   all sequences of depth 2..3 (thorough 4) over the datagram kinds,
+        observed at the end only and after chosen prefixes (probe sets)
+  pad   all pairs / triples of small datagrams around the 46-byte Ethernet
+        minimum, every probe set
+  long  13..17 minimal datagrams (count limit), with and without probes
 """
 import itertools
 import struct
@@ -11,10 +24,12 @@ from mc import core, ecparse
 
 PROP = "C11"
 LEVEL = "model_checking"
-RULE = ("every sequence of datagrams over the stated alphabet up to the depth "
-        "bound is appended to a real Packet/SterilePacket and assembled; a "
-        "case is non-trivial when at least one datagram was accepted; distinct "
-        "= distinct (class, op sequence, index, ethertype)")
+RULE = ("every operation sequence over the stated alphabet up to the depth "
+        "bound is executed on one real Packet/SterilePacket: appends "
+        "(append / append_writer) interleaved with observations (size read, "
+        "assemble, sterile) after the chosen prefixes and at the end; a case "
+        "is non-trivial when at least one datagram was accepted; distinct = "
+        "distinct (class, op sequence, probe set, index, ethertype)")
 
 from ebpfcat.ethercat import ECCmd, Packet  # noqa: E402
 from ebpfcat.ebpfcat import SterilePacket  # noqa: E402
@@ -24,8 +39,16 @@ HDR = 16
 OVERHEAD = 12
 MAXCOUNT = 15
 
-ADDRS = [(-3, 0x10), (0, 0x130), (30000, 0xffff), (-32768, 0x502),
-         (0x00010800,), (0x7fc00000,), (-0x80000000,)]
+# the address alphabet: every position with every offset (the packer takes the
+# position as a signed and the offset as an unsigned 16-bit number), and
+# logical addresses (signed 32 bit)
+POSITIONS = [0, 1, -1, -2, -3, 1000, 30000, 32767, -32768]
+OFFSETS = [0, 1, 0x10, 0x130, 0x502, 0xffff]
+ADDRS2 = [(p, o) for p in POSITIONS for o in OFFSETS]
+LOGICALS = [(0,), (1,), (-1,), (-2,), (0xffff,), (0x10000,), (0x00010800,),
+            (0x7fc00000,), (0x7fffffff,), (-0x80000000,)]
+ADDRS = ADDRS2 + LOGICALS
+WINDOW = 7      # addresses per (command, length) in the depth-1 product
 IDS = [(0, 0x88A4), (63, 0x3000), (1000, 0x88A4), (10 ** 9, 0x5fff),
        (0x7fffffff, 0x88A4)]
 
@@ -34,22 +57,131 @@ def payload(k, n):
     return bytes(((k * 37 + j * 7 + 1) & 0xff) for j in range(n))
 
 
-def run_sequence(cls_name, ops, ident, res):
+def run_sequence(cls_name, ops, ident, res, probes=()):
     """ops: list of (method, cmd, addr, length_spec, wkc, idx)
 
-    length_spec: int, or ('fit', delta) = exactly fitting length + delta."""
+    length_spec: int, or ('fit', delta) = exactly fitting length + delta.
+    probes: indices k of ops after which the object is observed (size read,
+    assemble, sterile) before the sequence goes on; an index may occur twice
+    (two observations without an append in between).  Every observation uses
+    another packet index / ethertype.  The object is always observed at the
+    end."""
     index, ethertype = ident
     pk = SterilePacket() if cls_name == "sterile" else Packet()
     size = HDR
     accepted = []   # (cmd, idx, addr32, data, wkc, start, stop, writer)
     case = dict(cls=cls_name, ops=ops, index=index, ethertype=ethertype)
-    ok = True
+    if probes:
+        case["probes"] = list(probes)
+    state = dict(ok=True, observed=0)
 
     def bad(expected, observed, what):
-        nonlocal ok
-        ok = False
+        state["ok"] = False
         res.violation(case, expected, observed,
                       sig=core.digest([cls_name, what]), note=what)
+
+    def observe(when):
+        """assemble what has been accepted so far and judge the frame
+
+        -> False if the frame was so wrong that going on makes no sense"""
+        if when is None:
+            oindex, oethertype = index, ethertype
+            sterile_first = False
+        else:
+            state["observed"] += 1
+            oindex, oethertype = IDS[(IDS.index(ident) + state["observed"])
+                                     % len(IDS)]
+            sterile_first = state["observed"] % 2 == 0
+        what = "" if when is None else " (observed before the last append)"
+        if pk.size != size:
+            bad(size, pk.size, "size attribute wrong" + what)
+        if not accepted:
+            return True
+        st = None
+        try:
+            if cls_name == "sterile" and sterile_first:
+                st = pk.sterile(oindex, oethertype)
+            frame = bytes(pk.assemble(oindex, oethertype))
+        except Exception as e:  # accepted datagrams must assemble
+            bad("frame", repr(e), "assemble raised" + what)
+            return False
+        ref = ecparse.build(
+            [(0, 0, oindex, struct.pack("<H", oethertype), 0)]
+            + [a[:5] for a in accepted], pad=False)
+        res.count("transitions", len(accepted) + 1)
+        if len(frame) > MAX:
+            bad("<= 1500", len(frame), "frame exceeds maximum" + what)
+        if len(frame) != max(len(ref), ecparse.MIN_PAYLOAD):
+            bad(max(len(ref), 46), len(frame),
+                "frame length / padding wrong" + what)
+        try:
+            length, dgs = ecparse.parse(frame)
+        except ecparse.ParseError as e:
+            bad("well-formed frame", str(e), "frame does not parse: "
+                + str(e).split(" at ")[0][:40] + what)
+            return False
+        if length != len(ref) - 2:
+            bad(len(ref) - 2, length, "header length != payload length"
+                + what)
+        if len(dgs) != len(accepted) + 1:
+            bad(len(accepted) + 1, len(dgs),
+                "datagram count / more flags wrong" + what)
+            return False
+        d0 = dgs[0]
+        if (d0.cmd, d0.addr, d0.data, d0.more) != \
+                (0, oindex & 0xffffffff, struct.pack("<H", oethertype), True):
+            bad("id datagram NOP/index/ethertype", repr(d0),
+                "id datagram wrong" + what)
+        for i, (d, a) in enumerate(zip(dgs[1:], accepted)):
+            cmd, idx, addr, data, wkc, start, stop, writer = a
+            exp = (cmd, idx & 0xff, addr, len(data), i < len(accepted) - 1)
+            obs = (d.cmd, d.idx, d.addr, d.length, d.more)
+            if exp != obs:
+                bad(exp, obs, "datagram header field wrong" + what)
+            if frame[start:stop] != data or d.data_pos != start:
+                bad(dict(start=start, data=data.hex()[:40]),
+                    dict(start=d.data_pos, data=frame[start:stop].hex()[:40]),
+                    "data not at reported position" + what)
+            if struct.unpack_from("<H", frame, stop)[0] != wkc \
+                    or d.wkc_pos != stop:
+                bad(dict(pos=stop, wkc=wkc),
+                    dict(pos=d.wkc_pos,
+                         wkc=struct.unpack_from("<H", frame, stop)[0]),
+                    "working counter not at reported position" + what)
+        if frame[:len(ref)] != ref:
+            bad(ref.hex()[:80], frame[:len(ref)].hex()[:80],
+                "bytes differ from reference serialisation" + what)
+        if cls_name == "sterile":
+            try:
+                if st is None:
+                    st = pk.sterile(oindex, oethertype)
+            except Exception as e:
+                bad("sterile frame", repr(e), "sterile raised" + what)
+                return False
+            exp = bytearray(frame)
+            for a in accepted:
+                if a[7]:
+                    exp[a[5] - 10] = 0
+            if bytes(st) != bytes(exp):
+                diff = [i for i in range(min(len(st), len(exp)))
+                        if st[i] != exp[i]]
+                bad("differs only in writer command bytes (NOP)",
+                    dict(diff_at=diff[:8], len=len(st)),
+                    "sterile copy wrong" + what)
+            # the bookkeeping SterilePacket exposes: counters / on_the_fly
+            expc = {a[6]: a[4] for a in accepted}
+            if dict(pk.counters) != expc:
+                bad(expc, dict(pk.counters),
+                    "sterile counter positions wrong" + what)
+            expw = [(a[5] - 10, a[6] + 2, a[0]) for a in accepted if a[7]]
+            obsw = [(s, e, c.value) for s, e, c in pk.on_the_fly]
+            if expw != obsw:
+                bad(expw, obsw, "sterile writer positions wrong" + what)
+        if when is None:
+            res.outcomes.add((len(accepted), len(frame) == 46, state["ok"]))
+        else:
+            res.outcomes.add(("probe", len(frame) == 46, state["ok"]))
+        return True
 
     for k, (method, cmd, addr, lspec, wkc, idx) in enumerate(ops):
         if isinstance(lspec, tuple):
@@ -73,17 +205,22 @@ def run_sequence(cls_name, ops, ident, res):
                 bad("accepted (fits: size %d + %d + 12 <= 1500, %d datagrams)"
                     % (size, n, len(accepted)), "OverflowError",
                     "fitting datagram rejected")
-            continue
-        if not fits:
-            bad("OverflowError (size %d + %d + 12 > 1500)" % (size, n),
-                "accepted", "oversize datagram accepted")
-            return
-        start, stop = size + 10, size + 10 + n
-        if cls_name != "sterile" and tuple(ret) != (start, stop):
-            bad((start, stop), ret, "reported position wrong")
-        accepted.append((cmd, idx, ecparse.addr32(cmd, *addr), data, wkc,
-                         start, stop, method == "writer"))
-        size += n + OVERHEAD
+        else:
+            if not fits:
+                bad("OverflowError (size %d + %d + 12 > 1500)" % (size, n),
+                    "accepted", "oversize datagram accepted")
+                return
+            start, stop = size + 10, size + 10 + n
+            if cls_name != "sterile" and tuple(ret) != (start, stop):
+                bad((start, stop), ret, "reported position wrong")
+            accepted.append((cmd, idx, ecparse.addr32(cmd, *addr), data, wkc,
+                             start, stop, method == "writer"))
+            size += n + OVERHEAD
+        for p in probes:
+            if p == k:
+                res.count("probes")
+                if not observe(k):
+                    return
     res.count("evaluations")
     if not accepted:
         res.outcomes.add("nothing accepted")
@@ -91,78 +228,7 @@ def run_sequence(cls_name, ops, ident, res):
     res.nontrivial.add(core.digest(case))
     if len(accepted) > MAXCOUNT:
         res.outcomes.add("more than 15 datagrams accepted")
-
-    try:
-        frame = bytes(pk.assemble(index, ethertype))
-    except Exception as e:  # accepted datagrams must assemble
-        bad("frame", repr(e), "assemble raised")
-        return
-    ref = ecparse.build(
-        [(0, 0, index, struct.pack("<H", ethertype), 0)]
-        + [a[:5] for a in accepted], pad=False)
-    res.count("transitions", len(accepted) + 1)
-    if len(frame) > MAX:
-        bad("<= 1500", len(frame), "frame exceeds maximum")
-    if len(frame) != max(len(ref), ecparse.MIN_PAYLOAD):
-        bad(max(len(ref), 46), len(frame), "frame length / padding wrong")
-    try:
-        length, dgs = ecparse.parse(frame)
-    except ecparse.ParseError as e:
-        bad("well-formed frame", str(e), "frame does not parse: "
-            + str(e).split(" at ")[0][:40])
-        return
-    if length != len(ref) - 2:
-        bad(len(ref) - 2, length, "header length != payload length")
-    if len(dgs) != len(accepted) + 1:
-        bad(len(accepted) + 1, len(dgs), "datagram count / more flags wrong")
-        return
-    d0 = dgs[0]
-    if (d0.cmd, d0.addr, d0.data, d0.more) != \
-            (0, index & 0xffffffff, struct.pack("<H", ethertype), True):
-        bad("id datagram NOP/index/ethertype", repr(d0), "id datagram wrong")
-    for i, (d, a) in enumerate(zip(dgs[1:], accepted)):
-        cmd, idx, addr, data, wkc, start, stop, writer = a
-        exp = (cmd, idx & 0xff, addr, len(data), i < len(accepted) - 1)
-        obs = (d.cmd, d.idx, d.addr, d.length, d.more)
-        if exp != obs:
-            bad(exp, obs, "datagram header field wrong")
-        if frame[start:stop] != data or d.data_pos != start:
-            bad(dict(start=start, data=data.hex()[:40]),
-                dict(start=d.data_pos, data=frame[start:stop].hex()[:40]),
-                "data not at reported position")
-        if struct.unpack_from("<H", frame, stop)[0] != wkc \
-                or d.wkc_pos != stop:
-            bad(dict(pos=stop, wkc=wkc),
-                dict(pos=d.wkc_pos,
-                     wkc=struct.unpack_from("<H", frame, stop)[0]),
-                "working counter not at reported position")
-    if frame[:len(ref)] != ref:
-        bad(ref.hex()[:80], frame[:len(ref)].hex()[:80],
-            "bytes differ from reference serialisation")
-    if cls_name == "sterile":
-        try:
-            st = pk.sterile(index, ethertype)
-        except Exception as e:
-            bad("sterile frame", repr(e), "sterile raised")
-            return
-        exp = bytearray(frame)
-        for a in accepted:
-            if a[7]:
-                exp[a[5] - 10] = 0
-        if bytes(st) != bytes(exp):
-            diff = [i for i in range(min(len(st), len(exp)))
-                    if st[i] != exp[i]]
-            bad("differs only in writer command bytes (NOP)",
-                dict(diff_at=diff[:8], len=len(st)), "sterile copy wrong")
-        # the bookkeeping SterilePacket exposes: counters / on_the_fly
-        expc = {a[6]: a[4] for a in accepted}
-        if dict(pk.counters) != expc:
-            bad(expc, dict(pk.counters), "sterile counter positions wrong")
-        expw = [(a[5] - 10, a[6] + 2, a[0]) for a in accepted if a[7]]
-        obsw = [(s, e, c.value) for s, e, c in pk.on_the_fly]
-        if expw != obsw:
-            bad(expw, obsw, "sterile writer positions wrong")
-    res.outcomes.add((len(accepted), len(frame) == 46, ok))
+    observe(None)
 
 
 # ------------------------------------------------------------------ alphabets
@@ -187,11 +253,49 @@ def seq_kinds(ctx):
     return kinds
 
 
+def probe_kinds():
+    """the reduced datagram alphabet for which every probe set is explored
+    at depth 3: the padding boundary (0, 1), an ordinary size and the frame
+    limit"""
+    kinds = []
+    for (cmd, addr, method), n in itertools.product(
+            [(ecparse.APRD, (-1, 0), "plain"),
+             (ecparse.FPWR, (1000, 0x800), "writer"),
+             (ecparse.LRW, (0x00010800,), "plain")],
+            [0, 1, 700, ("fit", 0), ("fit", 1)]):
+        kinds.append((method, cmd, addr, n, 1 + len(kinds) % 3,
+                      (len(kinds) * 5) % 256))
+    return kinds
+
+
+def subsets(n):
+    """all non-empty probe sets over op indices 0..n-1, plus one with a
+    repeated observation"""
+    out = []
+    for mask in range(1, 1 << n):
+        out.append(tuple(i for i in range(n) if mask >> i & 1))
+    out.append((0, 0))
+    return out
+
+
+PAD_CMDS = [("plain", ecparse.APRD, (-1, 0)),
+            ("writer", ecparse.FPWR, (1001, 0x120)),
+            ("plain", ecparse.LRD, (0x10000,)),
+            ("plain", ecparse.BRD, (0, 0x130)),
+            ("writer", ecparse.LWR, (-0x800,))]
+
+
+def both(seq, ident, res, probes=()):
+    run_sequence("packet", [("plain",) + tuple(k[1:]) for k in seq], ident,
+                 res, probes)
+    run_sequence("sterile", seq, ident, res, probes)
+
+
 def work(item, res):
     kind, payload_ = item
     if kind == "d1":
-        cmd, n = payload_
-        for addr in ADDRS:
+        cmd, n, addrs = payload_
+        for addr in addrs:
             for wkc in (0, 1, 3):
                 for idx in (0, 0x33, 255):
                     ident = IDS[(cmd + n + wkc + idx) % len(IDS)]
@@ -200,54 +304,142 @@ def work(item, res):
                                         ("sterile", "writer")):
                         run_sequence(cls, [(method, cmd, addr, n, wkc, idx)],
                                      ident, res)
+    elif kind == "addr1":
+        addr, = payload_
+        for cmd in range(15):
+            for n in (0, 2, 31):
+                for wkc, idx in ((0, 0), (3, 255)):
+                    ident = IDS[(cmd + n + wkc) % len(IDS)]
+                    for cls, method in (("packet", "plain"),
+                                        ("sterile", "plain"),
+                                        ("sterile", "writer")):
+                        run_sequence(cls, [(method, cmd, addr, n, wkc, idx)],
+                                     ident, res)
+    elif kind == "addr2":
+        a1, i1 = payload_
+        for i2, a2 in enumerate(ADDRS):
+            c1, c2 = (i1 + i2) % 15, (i1 * 3 + i2 * 7 + 1) % 15
+            seq = [("plain", c1, a1, (i1 + i2) % 3, 1, i1 & 0xff),
+                   ("writer", c2, a2, i2 % 4, 2, i2 & 0xff)]
+            ident = IDS[(i1 + i2) % len(IDS)]
+            both(seq, ident, res)
+            both(seq, ident, res, (0,))
     elif kind == "seq":
-        prefix, depth, kinds = payload_
+        prefix, depth, kinds, probesets = payload_
         for tail in itertools.product(range(len(kinds)),
                                       repeat=depth - len(prefix)):
             seq = [kinds[i] for i in prefix + tail]
             ident = IDS[sum(prefix + tail) % len(IDS)]
-            run_sequence("packet", [("plain",) + k[1:] for k in seq], ident,
-                         res)
-            run_sequence("sterile", seq, ident, res)
+            for probes in probesets:
+                both(seq, ident, res, probes)
+    elif kind == "pad":
+        n1, = payload_
+        for n2 in range(0, 21):
+            c = n1 + 2 * n2
+            k1 = PAD_CMDS[c % 5] + (n1, 1 + c % 3, c & 0xff)
+            k2 = PAD_CMDS[(c // 5 + 1) % 5] + (n2, c % 2, (c * 3) & 0xff)
+            ident = IDS[c % len(IDS)]
+            for probes in [()] + subsets(2):
+                both([k1, k2], ident, res, probes)
+            if n1 + n2 <= 8:
+                for n3 in (0, 1, 5):
+                    k3 = PAD_CMDS[(c + n3) % 5] + (n3, 1, n3)
+                    for probes in [()] + subsets(3):
+                        both([k1, k2, k3], ident, res, probes)
     elif kind == "long":
-        pattern, = payload_
+        pattern, probes = payload_
         ks = [("plain", ecparse.BRD, (0, 0x130), 0, 1, 1),
               ("writer", ecparse.FPWR, (7, 0x10), 1, 2, 9)]
         seq = [ks[b] for b in pattern]
         ident = IDS[len(pattern) % len(IDS)]
-        run_sequence("packet", [("plain",) + k[1:] for k in seq], ident, res)
-        run_sequence("sterile", seq, ident, res)
+        both(seq, ident, res, probes)
 
 
 def run(ctx):
-    items = [("d1", (cmd, n)) for cmd in range(15)
-             for n in lengths_depth1(ctx)]
+    lens1 = lengths_depth1(ctx)
+    items = []
+    for cmd in range(15):
+        for j, n in enumerate(lens1):
+            w = (cmd * 5 + j * WINDOW + ctx.seed) % len(ADDRS)
+            addrs = tuple((ADDRS + ADDRS)[w:w + WINDOW])
+            items.append(("d1", (cmd, n, addrs)))
+    items += [("addr1", (a,)) for a in ADDRS]
+    items += [("addr2", (a, i)) for i, a in enumerate(ADDRS)]
     kinds = seq_kinds(ctx)
+    qkinds = kinds if ctx.quick else seq_kinds(core.Ctx(ctx.prop, "quick",
+                                                        ctx.seed, 1))
+    pkinds = probe_kinds()
     maxdepth = 3 if ctx.quick else 4
+    NONE = ((),)
     for depth in range(2, maxdepth + 1):
         plen = 1 if depth <= 2 else 2
+        if depth == 2:
+            sets = NONE + tuple(subsets(2))
+        elif depth == 3:
+            # observed after every prefix; all other probe sets below
+            sets = NONE + ((0, 1),)
+        else:
+            sets = NONE
         for prefix in itertools.product(range(len(kinds)), repeat=plen):
-            items.append(("seq", (prefix, depth, kinds)))
+            items.append(("seq", (prefix, depth, kinds, sets)))
+    # every probe set at depth 3: reduced alphabet (quick), the quick
+    # alphabet (thorough)
+    rest = tuple(s for s in subsets(3) if s != (0, 1))
+    for ks in ((pkinds,) if ctx.quick else (pkinds, qkinds)):
+        for prefix in itertools.product(range(len(ks)), repeat=2):
+            items.append(("seq", (prefix, 3, ks, rest)))
+    if not ctx.quick:
+        # depth 4 observed after every prefix, reduced alphabet
+        for prefix in itertools.product(range(len(pkinds)), repeat=2):
+            items.append(("seq", (prefix, 4, pkinds,
+                                  ((0, 1, 2), (1, 2), (0, 2), (2, 2)))))
+    items += [("pad", (n1,)) for n1 in range(0, 21)]
     lo, hi = (14, 17) if ctx.quick else (13, 17)
     for n in range(lo, hi + 1):
+        some = [(0,) * n, (1,) * n, tuple(i % 2 for i in range(n)),
+                tuple((i + 1) % 2 for i in range(n))]
         if ctx.quick:
-            pats = [(0,) * n, (1,) * n, tuple(i % 2 for i in range(n)),
-                    tuple((i + 1) % 2 for i in range(n))]
+            pats = some
         else:
             pats = itertools.product((0, 1), repeat=n)
-        items.extend(("long", (p,)) for p in pats)
+        items.extend(("long", (p, ())) for p in pats)
+        # the same object observed after every append, and around the limit
+        for p in some:
+            items.append(("long", (p, tuple(range(n)))))
+            items.append(("long", (p, (0, 13, 14, 14))))
+            items.append(("long", (p, tuple(range(n - 3, n)))))
+        if not ctx.quick and n in (15, 16):
+            items.extend(("long", (p, (13, 14)))
+                         for p in itertools.product((0, 1), repeat=n))
     res = core.pmap(ctx, work, items, chunk=8)
     res.cov["alphabet"] = dict(
-        depth1_lengths=len(lengths_depth1(ctx)), depth1_addrs=len(ADDRS),
-        seq_kinds=len(kinds), seq_max_depth=maxdepth, long=(lo, hi))
+        depth1_lengths=len(lens1), addresses=len(ADDRS),
+        depth1_address_window=WINDOW, seq_kinds=len(kinds),
+        probe_kinds=len(pkinds), seq_max_depth=maxdepth, long=(lo, hi))
     res.cov["states"] = len(res.nontrivial)
     res.cov["traces_validated_against_impl"] = res.cov.get("evaluations", 0)
     res.sample(dict(cls="sterile", ops=[list(map(repr, kinds[3])),
                                         list(map(repr, kinds[-1]))]))
+    res.sample(dict(cls="packet", probes=[0, 1],
+                    ops=[list(map(repr, pkinds[0])),
+                         list(map(repr, pkinds[1])),
+                         list(map(repr, pkinds[6]))],
+                    meaning="assembled after the first, after the second "
+                            "and after the third append"))
     res.assumptions += [
         "count limit taken as 15 user datagrams per frame (as in the code); "
         "a sequence is 'fitting' when 16 + sum(len+12) <= 1500",
-        "padding bytes are unconstrained, only the padded length is checked"]
+        "padding bytes are unconstrained, only the padded length is checked",
+        "addresses are taken from what the packer can represent: position "
+        "-32768..32767 with offset 0..0xffff, or one logical address "
+        "-2^31..2^31-1; a position 0xffff or a logical address 0xffffffff "
+        "is refused by struct when the frame is assembled and not judged",
+        "an object that has not accepted any datagram yet is not assembled "
+        "(the statement talks about accepted sequences)",
+        "a frame assembled before the last append is judged against the "
+        "datagrams accepted until then; SterilePacket.append reports no "
+        "position, the position is Packet.size before the call + 10 (what "
+        "ebpfcat's own callers use), so the size attribute is compared too"]
     return res
 
 
@@ -256,5 +448,6 @@ def replay(ctx, rep):
     c = rep["case"]
     ops = [tuple(tuple(x) if isinstance(x, list) else x for x in op)
            for op in c["ops"]]
-    run_sequence(c["cls"], ops, (c["index"], c["ethertype"]), res)
+    run_sequence(c["cls"], ops, (c["index"], c["ethertype"]), res,
+                 tuple(c.get("probes", ())))
     return res.violations
